@@ -610,6 +610,66 @@ pub fn run_case(ctx: &Ctx, sz: &Sizes, relays: &[Relay], case: u64) {
     let _ = same::<u8>;
 }
 
+/// A receiver embedded through a shared pointer (`Arc<IpcReceiver<T>>`, serde's `rc`): the only way
+/// for a program to still hold "the handle it was sent from" after the send. That handle must
+/// receive nothing further (an error or a panic is "nothing"); the transferred receiver yields
+/// every message queued before and sent after the transfer, in order.
+fn shared_pointer_case(ctx: &Ctx, case: u64) {
+    use ipc_channel::ipc::{IpcReceiver, IpcSender};
+    let rep = &ctx.rep;
+    let mut r = Rng::derive(ctx.seed, 0xc04a, case);
+    let (tx, rx): (IpcSender<u32>, IpcReceiver<u32>) = must("channel", ipc::channel());
+    let shared = Arc::new(rx);
+    let pre = r.below(10) as u32;
+    let post = r.below(10) as u32;
+    for s in 0..pre {
+        must("queue before", tx.send(s));
+    }
+    let (ctx_tx, ctx_rx) = must("carrier", ipc::channel::<(u8, Arc<IpcReceiver<u32>>)>());
+    must("send receiver by shared pointer", ctx_tx.send((7, shared.clone())));
+    for s in pre..pre + post {
+        must("send after", tx.send(s));
+    }
+    let moved = match ctx_rx.recv() {
+        Ok((7, m)) => m,
+        other => {
+            rep.violation("C04:shared-pointer:carrier-message-damaged", json!({"case": case, "got": format!("{:?}", other.map(|x| x.0))}), ctx.replay(case));
+            return;
+        },
+    };
+    let mut problems: Vec<(String, serde_json::Value)> = Vec::new();
+    // the handle the receiver was sent from
+    panic_quiet(true);
+    let kept = std::panic::catch_unwind(std::panic::AssertUnwindSafe(|| shared.try_recv()));
+    let _ = take_panics();
+    panic_quiet(false);
+    let kept_desc = match &kept {
+        Ok(Ok(v)) => {
+            problems.push(("handle-it-was-sent-from-still-receives".into(), json!({"message": v, "queued_before": pre, "sent_after": post})));
+            "message"
+        },
+        Ok(Err(_)) => "error",
+        Err(_) => "panic",
+    };
+    let mut got = Vec::new();
+    for _ in 0..pre + post {
+        match moved.try_recv() {
+            Ok(v) => got.push(v),
+            Err(_) => break,
+        }
+    }
+    let want: Vec<u32> = (0..pre + post).collect();
+    if got != want {
+        problems.push(("transferred-receiver-misses-messages".into(), json!({"got": got, "queued_before": pre, "sent_after": post})));
+    }
+    rep.case(&("shared-pointer", pre, post, kept_desc), true);
+    rep.stat("receivers_sent_by_shared_pointer", 1);
+    rep.stat(&format!("kept_handle_{}", kept_desc), 1);
+    for (k, d) in problems {
+        rep.violation(&format!("C04:shared-pointer:{}", k), json!({"case": case, "variant": variant(), "problem": d}), ctx.replay(case));
+    }
+}
+
 pub fn run(ctx: &Ctx) {
     let sz = sizes();
     let n = ctx.opt_u64("cases", if ctx.thorough { 900 } else { 30 });
@@ -624,6 +684,10 @@ pub fn run(ctx: &Ctx) {
             continue;
         }
         let _g = op_begin("value-through-relays", case);
+        if i % 5 == 4 && !cfg!(miri) {
+            shared_pointer_case(ctx, case);
+            continue;
+        }
         run_case(ctx, &sz, &relays, case);
     }
     for r in relays {
